@@ -416,7 +416,21 @@ func c19Case(res *vlib.Result, r *vlib.Rand, id int) {
 		c := &clientSpec{Transport: "post", NAT: r.PickString(natChoices), Offer: fmt.Sprintf("P2-%d-%d", id, i)}
 		observeClient(t, c, b.client(c))
 	}
-	rec2 := map[string]interface{}{"case": name + "/second-period", "second_period_denied_clients": n2}
+	// ... and proxies of every type, unrecognised ones included, poll again in the new
+	// period (idle polls, all at once): the per-type and total unique-address figures
+	// start over and must count them
+	nIdle2 := r.Range(3, 7)
+	for i := 0; i < nIdle2; i++ {
+		p := mkPoll(i, "idle2")
+		if i == 0 {
+			p.Type = r.PickString([]string{"weird", "", "standalone-v2"}) // an unrecognised type at least once
+		}
+		wg.Add(1)
+		go func() { defer wg.Done(); observePoll(t, p, b.poll(p), hostOf(p)) }()
+	}
+	wg.Wait()
+	res.Obs("second_period_polls", int64(nIdle2))
+	rec2 := map[string]interface{}{"case": name + "/second-period", "second_period_denied_clients": n2, "second_period_idle_polls": nIdle2}
 	checkPublished(res, name+"/second-period", b, t, rec2)
 	res.Obs("second_period_checks", 1)
 }
